@@ -170,6 +170,31 @@ def _r4src(n):
     return "/tmp/mut4/%s/_out/%s" % (n[2:4], n[4])
 SRC_OVERRIDE.update({n: _r4src(n) for n in NEEDS if n.startswith("R4")})
 
+# round 5: agents got the list of ~130 earlier ideas (all detected by then) and were asked for KINDS absent from it; ids R5h<n><A|B|C>
+NEEDS.update({
+ "R5h1A": ("C02", "projective mul_assign reduces the scalar modulo r before the ladder", "a curve point OUTSIDE the subgroup together with a scalar >= r on the projective plain path"),
+ "R5h1B": ("C01", "batch_normalization works in blocks of 1024 with one scratch vector that is never cleared", "slices longer than 1024 with non-normalised entries in two blocks"),
+ "R5h1C": ("C10", "sum_of_products_precomp_256 walks the points in blocks of 64 sharing one Horner accumulator", "more than 64 points on the table-driven variant"),
+ "R5h2A": ("C12", "final_exponentiation fast path for unitary input (conj(f)*f == 1) uses f instead of conj(f)", "unitary f outside Fq6: pairing values, conj(x)/x"),
+ "R5h2B": ("C11", "pairing_multi_product in blocks of 256 via chunks_exact; the remainder is taken from the FRONT of the slice", "more than 256 pairs, length not a multiple of 256"),
+ "R5h2C": ("C09", "Fq12::frobenius_map reduces the power as u32 before % 12", "k >= 2^32 with floor(k / 2^32) not a multiple of 3"),
+ "R5h3A": ("C05", "G1Compressed sort flag by limb comparison with (q-1)/2; the tie-break compares little-endian limb slices", "y sharing its top limb with (q-1)/2 (2^-60 of all points): constructible only OUTSIDE the subgroup, i.e. outside the property's domain"),
+ "R5h3B": ("C19", "Fq12::serialize uses write() instead of write_all()", "a writer that accepts fewer than 576 bytes per call"),
+ "R5h3C": ("C19", "G2Affine::serialize uses a naive write loop", "a writer that reports Interrupted (not retried) or Ok(0)"),
+ "R5h4A": ("C13", "XMD block count written as (len-1)/b + 1", "len_in_bytes = 0 (count = 0): abort instead of the empty string"),
+ "R5h4B": ("C13", "dst_prime helper computes a capacity hint as u8 + 1", "a tag of exactly 255 bytes in builds with overflow checks: panic"),
+ "R5h4C": ("C13", "XOF expander gains a length guard with >= 65535", "a request of exactly 65535 bytes"),
+ "R5h5A": ("C20", "Pippenger buckets kept thread-local and validated by a u16 epoch stamp that wraps", "a bucket last written exactly 65536 window iterations ago on the same thread"),
+ "R5h5B": ("C20", "per-curve thread-local buckets share one type-erased stamp array", "G1 and G2 MSMs interleaved on one thread with equal window counts"),
+ "R5h5C": ("C20", "thread-local ring of the 16 most recently prepared G2 elements; on eviction only the payload is overwritten", "17 distinct G2 elements prepared on one thread, then one of the first 16 again"),
+ "R5h6A": ("C10", "find_pippinger_window falls back to the floating-point estimate beyond the last table boundary", "n >= about 5*10^6: windows 18, 20, 24, ..."),
+ "R5h6B": ("C19", "Fq12::serialize uses write() instead of write_all()", "a writer that does not take the whole buffer in one call"),
+ "R5h6C": ("C02", "projective mul_assign reduces the scalar with repeated subtraction of r", "a point outside the subgroup with a scalar >= r"),
+})
+def _r5src(n):
+    return "/tmp/mut5/%s/_out/%s" % (n[2:4], n[4])
+SRC_OVERRIDE.update({n: _r5src(n) for n in NEEDS if n.startswith("R5")})
+
 
 def first_line(path, pat):
     try:
@@ -214,6 +239,11 @@ def main():
                     ran=["tools/confirm_mut.sh ... %s (scratch worktree, debug profile: demo on clean tree, demo with change, 129-test suite with change)" % name,
                          "tools/eval_mut.sh <patch> %s <checks> (scratch worktree, VERIF_REPO, quick tier)" % name],
                     detection=detection)
+        if name == "R5h3A":
+            meta["kept"] = False
+            meta["rejected_because"] = ("the triggering points (y sharing its top limb with (q-1)/2) can only be constructed outside the order-r subgroup "
+                                        "(choose y, take a cube root): outside the domain of C05 / C19; inside the subgroup the trigger has probability 2^-60 "
+                                        "per point and cannot be constructed. Kept only as a record.")
         if name == "C05A":
             meta["kept"] = False
             meta["rejected_because"] = ("the triggering points (y.c1 = 0) exist only outside the order-r subgroup, so the property as stated "
